@@ -52,6 +52,9 @@ TxAlphabet ==
   \cup { Tx(<<[t |-> "Send", from |-> "A1", to |-> x, amt |-> 5, denom |-> "nund"]>>) : x \in {"ent", "A3"} }
   \cup { TxFee(<<[t |-> "Send", from |-> "A3", to |-> "A1", amt |-> 1, denom |-> "nund"]>>, [nund |-> 1]) }
   \cup { TxFee(<<[t |-> "Exec", grantee |-> "A3", msgs |-> <<WRec("A3", 1, LastW(1) + 1)>>]>>, [nund |-> 2]) }
+  \* a parameter update of a registry module sent by a holder of locked eFUND who names itself as authority (refused when it
+  \* executes): a message OF the module, not a registry operation - the fee is paid from liquid funds, nothing is unlocked
+  \cup { TxFee(<<[t |-> "UpdParams", mod |-> k, authority |-> "A3", p |-> st[k].p]>>, [nund |-> 2]) : k \in {"wrk", "bcn"} }
   \* storage purchases by a holder of locked eFUND: two for one WRKChain that are each within the purchasable amount but
   \* together above it (refused before execution), the same within it, and one for an id that was never registered
   \cup { TxFee(<<[t |-> "WBuy", owner |-> "A3", id |-> 1, n |-> ab[1]], [t |-> "WBuy", owner |-> "A3", id |-> 1, n |-> ab[2]]>>, [nund |-> 3 * (ab[1] + ab[2])]) : ab \in {<<2, 1>>, <<1, 1>>} }
@@ -63,7 +66,9 @@ TxAlphabet ==
   \cup { TxFee(<<[t |-> "Send", from |-> "A3", to |-> "A1", amt |-> 1, denom |-> "nund"]>>, [nund |-> 1]) @@ [granter |-> "A1"] }
   \* explicit fee payers (the payer signs too): A1 sponsors the registry fees of A3, who holds locked eFUND; A3 sponsors A1's
   \cup { TxFee(m, [nund |-> Exact(m)]) @@ [payer |-> "A1"] : m \in {<<BReg("A3")>>, <<BRec("A3", 1)>>, <<WRec("A3", 1, LastW(1) + 1)>>} }
-  \cup { TxFee(m, [nund |-> Exact(m)]) @@ [payer |-> "A3"] : m \in {<<WReg("A1")>>, <<WRec("A1", 1, LastW(1) + 1)>>} })
+  \cup { TxFee(m, [nund |-> Exact(m)]) @@ [payer |-> "A3"] : m \in {<<WReg("A1")>>, <<WRec("A1", 1, LastW(1) + 1)>>} }
+  \* A3's registry transactions naming a fee granter, signed by a stranger's key only (with and without an allowance)
+  \cup { TxFee(m, [nund |-> Exact(m)]) @@ [granter |-> g, signers |-> <<"A4">>] : m \in {<<BRec("A3", 1)>>, <<BReg("A3")>>}, g \in {"A1", "A4"} })
 
 Do(ev, ph) ==
   LET r == Step(st, ev) IN
